@@ -225,6 +225,11 @@ class Form(Node):
                 else:
                     H = M / (e - 1)
 
+            if abs(H) > 5:
+                # For large mean anomalies the guesses above are far beyond the
+                # solution and make sinh/cosh overflow; e.sinh(H) = M is closer
+                H = np.arcsinh(M / e)
+
             def next_H(H, e, M):
                 return H + (M - e * sinh(H) + H) / (e * cosh(H) - 1)
 
